@@ -76,6 +76,6 @@ def distribution(recs):
 
 
 MANIFEST = {
- "text": "For every list of component programs: setups run once each in the given order against one handle (C20_setup_order), each iteration invokes the components in order with that iteration's handle up to and including the first that stops (C20_iter_order), a stopping component prevents the later ones in that iteration only and the iteration is failed (C20_stop, C20_next_iteration_runs_all). Induction over the component list. Tie: generated components through the real f1.CombineScenarios; order, handle identity and outcomes compared and monitored; repeated set-up of one combined scenario checked for shared state.",
+ "text": "For every list of component programs: setups run once each in the given order against one handle (C20_setup_order), each iteration invokes the components in order with that iteration's handle up to and including the first that stops (C20_iter_order), a stopping component prevents the later ones in that iteration only and the iteration is failed (C20_stop, C20_next_iteration_runs_all). Induction over the component list. Tie: generated components through the real f1.CombineScenarios; order, handle identity and outcomes compared and monitored; repeated set-up of one combined scenario checked for shared state. Regenerated: both closures of CombineScenarios are translated from the source on every run and proved, by induction over the component slice, to call the components in order with the one handle up to and including the first that panics (combine_setup_refines, combine_iter_refines), which is Handle.executedComps (executedComps_eq_takeThrough); they are also executed on every scn case (mg.scn).",
  "note": "Handle identity is observed as pointer equality by the harness; in the model the handle is threaded through the component loop.",
- "technique": "Lean 4 theorems by induction over component lists + event-log correspondence with the real CombineScenarios"}
+ "technique": "Lean 4 theorems by induction over component lists + event-log correspondence with the real CombineScenarios; refinement of the regenerated closures (MiniGo, induction over the slice)"}
